@@ -146,8 +146,8 @@ func TestC09(t *testing.T) {
 			}
 			return genOp(rt, w, pre, prof)
 		},
-		Profile: Profile{Name: "prune", Weights: weightsWith(map[string]int{"prune": 8, "prune_yes": 14, "compact": 7, "set": 34, "claim_id": 6, "sequence": 10, "new_task": 16, "new_epic": 6}),
-			BadRef: 22, Spoil: 2, Results: 4, MinSteps: 8, MaxSteps: 34},
+		Profile: Profile{Name: "prune", Weights: weightsWith(map[string]int{"prune": 8, "prune_yes": 14, "compact": 10, "set": 34, "claim_id": 6, "sequence": 10, "new_task": 16, "new_epic": 8}),
+			EpicPct: 45, BadRef: 22, Spoil: 2, Results: 4, MinSteps: 8, MaxSteps: 34},
 		Rule: "random command histories mixing states and epic memberships with prune / prune --yes / compact and later commands aimed at pruned ids; non-trivial = a prune --yes that removes >= 1 item while >= 1 item stays, followed by a command on a pruned id or a compact" + distinctRule,
 		NonTrivial: func(h []stepInfo) bool {
 			for i, s := range h {
